@@ -211,6 +211,19 @@ def run(ctx):
                     opts = {"seed": 7, "password": pw, "dereference": False, "arcname": None, "dest": "given", "entry": entry}
                     jobs.append((shape, opts, tmp))
                     meta.append((shape, opts))
+        # dereference=True over links to files and to directories (sideways and downward, never to an ancestor): the
+        # entry that replaces a link carries the pointee's content, mode and modification time, not the link's own
+        fixed3 = [("d", "dir", 0o755), ("d/real.txt", "file", (b"pointee" * 9, 0o640)), ("d/sub", "dir", 0o750), ("d/sub/x.bin", "file", (bytes(range(50)), 0o600)),
+                  ("d/sub/y", "file", (b"", 0o644)), ("ln_file", "link", "d/real.txt"), ("ln_dir", "link", "d/sub"), ("d/ln_side", "link", "sub/x.bin"),
+                  ("e", "dir", 0o700), ("e/ln_up_side", "link", "../d/sub")]
+        for entry in ("api", "api-dot"):
+            for pw in (None, "pw"):
+                for arcname in (None, "top/arc"):
+                    if entry == "api-dot" and arcname:
+                        continue
+                    opts = {"seed": 11 + len(jobs), "password": pw, "dereference": True, "arcname": arcname, "dest": "given", "entry": entry}
+                    jobs.append((fixed3, opts, tmp))
+                    meta.append((fixed3, opts))
         res = sandbox.pmap(_roundtrip, jobs, timeout=180)
         for (spec, opts), (st_, val) in zip(meta, res):
             desc = [(r, k, (len(p[0]), oct(p[1])) if k == "file" else (oct(p) if k == "dir" else p)) for r, k, p in spec]
